@@ -209,6 +209,17 @@ Theorem C04_report_step :
 Proof. exact internal_report_nodes. Qed.
 Print Assumptions C04_report_step.
 
+(* the 2.x node reports: heartbeat response (22; the 2.0 handler under 2.0 / 2.1 — C04_heartbeat20 —
+   the 2.2 handler under 2.2), pre-sleep notification (32 under 2.2), discover response (21): the
+   registry after the line is the registry after the handler body the tables dispatch it to *)
+Theorem C04_wake_report_step :
+  forall bat vlt now line s m b,
+    decode (proto_of (s_w s)) line = DecOk m -> m_cmd m = 3 ->
+    wake_report_body (w_proto (s_w s)) (m_type m) = Some b ->
+    w_nodes (s_w (snd (listen_step bat vlt now line s))) = w_nodes (s_w (snd (run_body2 bat vlt now b no_super m s))).
+Proof. exact wake_report_nodes. Qed.
+Print Assumptions C04_wake_report_step.
+
 (* which (class, method) pair serves which handler name: the bodies above are the
    ones the generated dispatch tables reach *)
 Theorem C04_tables :
